@@ -296,8 +296,11 @@ func (li *Listener) Close() error {
 	li.doneOnce.Do(func() {
 		close(li.doneChan)
 	})
+	// the QUIC listener first: closing the socket under it makes its transport shut the
+	// listener down from the read loop, and the two shutdowns wait for each other forever
+	qerr := li.ql.Close()
 	perr := li.pc.Close()
-	if qerr := li.ql.Close(); qerr != nil {
+	if qerr != nil {
 		return qerr
 	}
 
